@@ -369,6 +369,9 @@ fn run(tier: Tier, states: &mut u64) -> Sink {
             for len in 2..=3 {
                 for idx in 0..4u64.pow(len as u32) {
                     jobs.push(Job::S(nth_sequence(4, len, idx).into_iter().map(|i| [0.25, 1.0, 8.0, 3.7][i] * 2f64.powi(e)).collect(), f32_));
+                    // a tight cluster: the reciprocal-space interval stays strictly positive,
+                    // so the harmonic clause is actually claimed at this magnitude
+                    jobs.push(Job::S(nth_sequence(4, len + 2, idx * 7 + 3).into_iter().map(|i| [1.0, 1.0625, 1.125, 1.25][i] * 2f64.powi(e)).collect(), f32_));
                 }
             }
         }
